@@ -144,7 +144,7 @@ def check_history(st, e, d, idx, shard_sizes, batches, perm, expected=None):
   if e.randomized:
     problems = e.randomized_oracle(got, rows)
   else:
-    problems = acc.diff_components(got, expected)
+    problems = e.diff_components(got, expected)
   for comp in problems:
     shard_cls = ''
     if 0 in shard_sizes and not e.randomized:
@@ -153,14 +153,14 @@ def check_history(st, e, d, idx, shard_sizes, batches, perm, expected=None):
       if alt is not None:
         try:
           alt_got = _run_history(d, rows, *alt)
-          if comp not in acc.diff_components(alt_got, expected):
+          if comp not in e.diff_components(alt_got, expected):
             shard_cls = ':needs-empty-shard'
         except _Fail:
           pass
     st.violation(
         f'C01:{e.signame}:{d.api}:value:{comp}{shard_cls}{tail}',
         {'case': case, 'rows': rows, 'got': got, 'one_batch_result': expected,
-         'first_difference': acc.diff(got, expected)}, replay=rp)
+         'first_difference': e.diff(got, expected)}, replay=rp)
 
 
 def _histories(e, n):
@@ -264,7 +264,7 @@ def _bound(e, quick):
 
 
 def run(ctx):
-  cat = acc.catalogue()
+  cat = acc.catalogue(offset=True)
   only = set(getattr(ctx, 'only', None) or ())
   units, n_datasets = [], 0
   for key, e in cat.items():
